@@ -13,6 +13,8 @@
 (*   O7  at most one handler goroutine per open context                                              (D4) *)
 (*   O8  an open-ended listing whose group is no longer opened has ended                             (D3) *)
 (*   O9  no request hangs (deadline of the driver)                                                        *)
+(*   O10 the metadata log of a group never holds fewer entries than it was seen to hold before (a         *)
+(*       deactivation / activation loses nothing), and the contact the set-up recorded stays known        *)
 (*   L1  after the service was closed no goroutine of the package is left, Close did not hang             *)
 (*   P1  no request makes a service method panic                                                    (C19) *)
 EXTENDS Integers, FiniteSets, Sequences, TLC, Json, IOUtils
@@ -21,8 +23,8 @@ TraceLog == ndJsonDeserialize(IOEnv.VERIF_TRACE)
 Collect == "VERIF_COLLECT" \in DOMAIN IOEnv /\ IOEnv.VERIF_COLLECT = "1"
 G == {"A", "C", "M"}
 
-VARIABLES l, sent, pst, parked
-mvars == <<l, sent, pst, parked>>
+VARIABLES l, sent, pst, parked, maxol
+mvars == <<l, sent, pst, parked, maxol>>
 Ev == TraceLog[l]
 
 \* the requests a line reports: <<[op, g, r, n]>>
@@ -32,6 +34,7 @@ Reqs == IF Ev.ev = "run" THEN Ev.ops
 Serial == Ev.ev \in {"start", "step"} \/ (Ev.ev = "run" /\ Len(Ev.ops) = 1)
 OkSends(g) == Cardinality({i \in DOMAIN Reqs : Reqs[i].op = "sendm" /\ Reqs[i].g = g /\ Reqs[i].r = "ok"})
 
+Created == \E i \in DOMAIN Reqs : Reqs[i].op = "create" /\ Reqs[i].r = "ok"
 Clauses(st, sent2, parked2) ==
   [ O1 |-> \A g \in G : st.op[g] => ~st.oc[g],
     O2 |-> st.acct \in {"nil", "same"} /\ ((st.acct = "nil") <=> ~st.op["A"]),
@@ -42,9 +45,11 @@ Clauses(st, sent2, parked2) ==
     O7 |-> st.nsub <= Cardinality({g \in G : st.odb[g]}),
     O8 |-> (st.strm.on /\ ~st.op[st.strm.g]) => ~st.strm.alive,
     O9 |-> \A i \in DOMAIN Reqs : Reqs[i].r # "hang",
+    O10 |-> /\ \A g \in G : (st.ol[g] >= 0 /\ ~(g = "M" /\ Created)) => st.ol[g] >= maxol[g]
+            /\ st.jn.cs \in {"?", "R", "A"},
     L1 |-> TRUE,
     P1 |-> (\A i \in DOMAIN Reqs : Reqs[i].r # "panic") /\ (\A g \in G : st.lst[g] # -2) ]
-Names == {"O1", "O2", "O3", "O4", "O5", "O6", "O7", "O8", "O9", "L1", "P1"}
+Names == {"O1", "O2", "O3", "O4", "O5", "O6", "O7", "O8", "O9", "O10", "L1", "P1"}
 
 Report(bad) == IF bad = {} THEN TRUE
                ELSE IF Collect THEN PrintT(<<"BAD", ToJson([at |-> l, clauses |-> bad, line |-> Ev])>>)
@@ -52,9 +57,10 @@ Report(bad) == IF bad = {} THEN TRUE
 Check(st, sent2, parked2) == LET cl == Clauses(st, sent2, parked2) IN Report({n \in Names : ~cl[n]})
 
 Zero == [g \in G |-> 0]
-MReset == /\ l <= Len(TraceLog) /\ Ev.ev = "reset" /\ l' = l + 1 /\ sent' = Zero /\ parked' = {} /\ pst' = pst
+MReset == /\ l <= Len(TraceLog) /\ Ev.ev = "reset" /\ l' = l + 1 /\ sent' = Zero /\ parked' = {} /\ pst' = pst /\ maxol' = Zero
 MInitLine == /\ l <= Len(TraceLog) /\ Ev.ev = "init" /\ l' = l + 1 /\ pst' = Ev.st /\ UNCHANGED <<sent, parked>>
-MEnd == /\ l <= Len(TraceLog) /\ Ev.ev = "end" /\ l' = l + 1 /\ UNCHANGED <<sent, pst, parked>>
+             /\ maxol' = [g \in G |-> IF Ev.st.ol[g] > maxol[g] THEN Ev.st.ol[g] ELSE maxol[g]]
+MEnd == /\ l <= Len(TraceLog) /\ Ev.ev = "end" /\ l' = l + 1 /\ UNCHANGED <<sent, pst, parked, maxol>>
         /\ Report(IF Ev.dead \/ Ev.close # "ok" \/ Ev.leak2 > Ev.leak0 THEN {"L1"} ELSE {})
 MStep == /\ l <= Len(TraceLog) /\ Ev.ev \in {"start", "step", "run", "cancel"} /\ l' = l + 1
          /\ sent' = [g \in G |-> sent[g] + OkSends(g)]
@@ -62,9 +68,11 @@ MStep == /\ l <= Len(TraceLog) /\ Ev.ev \in {"start", "step", "run", "cancel"} /
                       THEN (IF Ev.r \in {"at:act", "at:deact", "at:send"} THEN parked \cup {Ev.c} ELSE parked \ {Ev.c})
                       ELSE parked
          /\ pst' = Ev.st
+         /\ maxol' = [g \in G |-> IF g = "M" /\ Created THEN Ev.st.ol[g]
+                                  ELSE IF Ev.st.ol[g] > maxol[g] THEN Ev.st.ol[g] ELSE maxol[g]]
          /\ Check(Ev.st, sent', parked')
 MNext == MReset \/ MInitLine \/ MEnd \/ MStep
-MInit == l = 1 /\ sent = Zero /\ pst = <<>> /\ parked = {} /\ TLCSet(42, 1)
+MInit == l = 1 /\ sent = Zero /\ pst = <<>> /\ parked = {} /\ maxol = Zero /\ TLCSet(42, 1)
 MSpec == MInit /\ [][MNext]_mvars
 
 Mark == TLCSet(42, IF l > TLCGet(42) THEN l ELSE TLCGet(42))
